@@ -47,6 +47,19 @@ def run(check: Check):
       n_div += 1
       check.ob('R-DIV', fi, txt(c)[:90], True, 'G1 util.safe_div', node=c)
   check.floor('R-DIV', 'division sites in compression.py', n_div, 8)
+  # the bit accounting counts leaf arrays (two 32-bit scalars are sent per leaf), not top-level entries of the tree
+  nl = repo.func(MOD, 'num_leaves')
+  nff = FuncFlow.of(repo, nl)
+  check.analysed(nl)
+  ok_nl = False
+  for _, rv in nff.returns():
+    for v in nff.expand(rv):
+      if isinstance(v, ast.Call) and nff.ext(v.func) == 'builtins.len' and v.args:
+        ok_nl = any(isinstance(w, ast.Call) and nff.ext(w.func) in ('jax.tree_util.tree_leaves', 'jax.tree_leaves', 'jax.tree_util.tree_flatten')
+                    and w.args and nff.param_of(w.args[0]) == nl.positional_params[0] for w in nff.deep_walk(v.args[0]))
+  check.ob('R-PAIR.leaves', nl, 'len(tree_leaves(pytree))', ok_nl,
+           'the number of leaves is counted over the flattened tree: len(pytree) counts top-level entries and under-counts nested '
+           '(haiku-style) parameter trees')
   # the rotated quantizers rely on rotation and inverse rotation undoing each other (rules of C18)
   from fjsa.props import c18
   c18.run(check)
